@@ -134,8 +134,13 @@ def parse_diagnostics(stderr_text, manifest, unit_lines, safety_clause):
         porigin = origin_of(manifest, pl)
         f = fn_of_line(manifest, unit_lines, pl)
         fname = f["anchor"] if f else None
+        ptext = ""
+        try:
+            ptext = re.sub(r"/\*\[?\d+\]?\*/", "", prim["text"][0]["text"]).strip()
+        except (KeyError, IndexError):
+            pass
         rec = {"engine": "verus", "description": msg, "function": fname, "site": site_of(porigin),
-               "verifier_output": rendered, "gen_line": pl}
+               "verifier_output": rendered, "gen_line": pl, "text": ptext}
         if any(t in msg for t in TOOL_MSGS):
             rec["kind"] = "tool"
             tool.append(rec)
@@ -258,6 +263,12 @@ def run_unit(scratch, unit, prefixes, prop, tier, safety_default=None):
         for f in m.get("function-breakdown", []):
             funcs.append({"function": f["function"].replace("unit::", ""), "smt_ms": f["time-micros"] // 1000,
                           "rlimit": f.get("rlimit"), "success": f.get("success")})
+    lost_hints = [h for f in manifest["functions"] for h in f.get("lost_hints", [])]
+    lost_fns = {h["fn"] for h in lost_hints}
+    for f in failures:
+        # a proof hint of this function could not be re-attached to the changed code: a failing
+        # obligation may be the missing hint, not the property -> needs a witness to count
+        f["weak"] = f.get("function") in lost_fns
     extracted = [{"anchor": f["anchor"], "file": f["file"], "line": f["line"], "kind": f["kind"],
                   "sha256": sha256(f["text"])[:16]} for f in manifest["functions"]]
     rules = {}
@@ -268,7 +279,7 @@ def run_unit(scratch, unit, prefixes, prop, tier, safety_default=None):
         "verified": vr.get("verified", 0), "errors": vr.get("errors", 0),
         "wall_s": wall, "cmd": " ".join(cmd).replace(work, "<scratch>/verus-" + unit),
         "functions": funcs, "extracted": extracted, "rules": rules, "faithful_items": n_faithful,
-        "trusted": scan_trusted(unit_text, unit), "unit_text": unit_text, "work": work,
+        "trusted": scan_trusted(unit_text, unit), "unit_text": unit_text, "work": work, "lost_hints": lost_hints,
         "out_rs": out_rs,
     }
 
@@ -350,7 +361,7 @@ def run_units(scratch, units, prop, tier):
             "functions_under_contract": res["extracted"], "rewrite_rules_fired": res["rules"],
             "faithfulness_check_items": res["faithful_items"], "canaries": can["canaries"],
             "canaries_failed_as_required": can["canaries"] - len(can["vacuous"]),
-            "contract_clauses": len(res["manifest"]["clauses"]),
+            "contract_clauses": len(res["manifest"]["clauses"]), "lost_proof_hints": res["lost_hints"],
             "wall_s": round(res["wall_s"], 2),
             "slowest": sorted(res["functions"], key=lambda f: -f["smt_ms"])[:8],
         })
